@@ -1,6 +1,6 @@
 (* Extraction of the executable model with the real environment.  Entry points have
    first-order types: primitive-server functions, suite selector, byte strings. *)
-From ZK Require Import RealEnv Consts.
+From ZK Require Import RealEnv Consts ClOps ClConsts.
 From Coq Require Import ExtrOcamlBasic ExtrOcamlZBigInt.
 (* three additional mappings (bitwise operations used by the Gallina SHA-256 / Keccak);
    listed in the trusted base, cross-checked by the in-Coq re-evaluation of samples *)
@@ -58,10 +58,50 @@ Section R.
   Definition r_dec_pk2xy := op_dec_pk2xy RE.
 End R.
 
+
+(* ---- CL03 entry points: suite selector 0 = toy (harness), 1..3 = the shipped suites ---- *)
+Definition cl_suite (k : N) : clsuite :=
+  match k with 0%N => toy_suite | 1%N => cl1024_suite | 2%N => cl2048_suite | _ => cl3072_suite end.
+Definition c_params k := o_params (cl_suite k).
+Definition c_map (m : bytes) := o_map m.
+Definition c_keygen k := o_keygen (cl_suite k).
+Definition c_bases := o_bases.
+Definition c_cpk k := o_cpk (cl_suite k).
+Definition c_sign k := o_sign (cl_suite k).
+Definition c_sign1 k := o_sign1 (cl_suite k).
+Definition c_verify k := o_verify (cl_suite k).
+Definition c_verify1 k := o_verify1 (cl_suite k).
+Definition c_disclose := o_disclose.
+Definition c_sigcodec k := o_sigcodec (cl_suite k).
+Definition c_sigfrombytes k := o_sigfrombytes (cl_suite k).
+Definition c_pkcodec k := o_pkcodec (cl_suite k).
+Definition c_pkfrombytes k := o_pkfrombytes (cl_suite k).
+Definition c_skcodec k := o_skcodec (cl_suite k).
+Definition c_commit k := o_commit (cl_suite k).
+Definition c_commitcpk k := o_commitcpk (cl_suite k).
+Definition c_extend := o_extend.
+Definition c_zkgen k := o_zkgen (cl_suite k) boudot_params.
+Definition c_zkver k := o_zkver (cl_suite k) boudot_params.
+Definition c_blindsign k := o_blindsign (cl_suite k) boudot_params.
+Definition c_unblind := o_unblind.
+Definition c_update := o_update.
+Definition c_spokgen k := o_spokgen (cl_suite k) boudot_params.
+Definition c_spokver k := o_spokver (cl_suite k) boudot_params.
+Definition c_rpprove := o_rpprove boudot_params.
+Definition c_rpverify := o_rpverify boudot_params.
+Definition c_randbits := o_randbits.
+Definition c_randint := o_randint.
+Definition c_randnumber := o_randnumber.
+Definition c_randprime := o_randprime.
+Definition c_randqr := o_randqr.
+
 Definition scalar_of_be (b : bytes) : option N := fr_of_be b.
 
 Extraction "model.ml"
   r_keygen r_keyrandom r_sk2pk r_gens r_h2s r_m2s r_ms2s r_sign r_verify r_update r_proofgen
   r_proofverify r_commit r_dvc r_blindsign r_blindverify r_blindproofgen r_blindproofverify
   r_dec_pk r_dec_sk r_dec_sig r_dec_proof r_dec_zkpok r_dec_commit r_dec_blind r_dec_pkxy
-  r_dec_pk2xy scalar_of_be N.of_nat N.to_nat.
+  r_dec_pk2xy scalar_of_be N.of_nat N.to_nat
+  c_params c_map c_keygen c_bases c_cpk c_sign c_sign1 c_verify c_verify1 c_disclose c_sigcodec c_sigfrombytes c_pkcodec
+  c_pkfrombytes c_skcodec c_commit c_commitcpk c_extend c_zkgen c_zkver c_blindsign c_unblind c_update c_spokgen c_spokver
+  c_rpprove c_rpverify c_randbits c_randint c_randnumber c_randprime c_randqr.
